@@ -33,9 +33,12 @@ def diff(a, b):
         if a[name]["flag"] != b[name]["flag"]:
             out.append((name, f"first_match_alternation {a[name]['flag']} -> {b[name]['flag']}"))
         elif a[name]["digest"] != b[name]["digest"]:
-            for (s, r0), (_, r1) in zip(a[name]["results"], b[name]["results"]):
+            for (s, r0, e0), (_, r1, e1) in zip(a[name]["results"], b[name]["results"]):
                 if r0 != r1:
                     out.append((name, f"parse({s!r}) {r0[:80]!r} -> {r1[:80]!r}"))
+                    break
+                if e0 != e1:
+                    out.append((name, f"lparse({s!r}) ends {e0!r} -> {e1!r}"))
                     break
     return out
 
